@@ -39,13 +39,13 @@ func TestVerifSpeakerListEvents(t *testing.T) {
 	}
 	go sl.memberlistWatchEvents()
 	var trace []string
-	// deliver one event; a sync must START after the delivery, within 3 s (a sync forced earlier has
+	// deliver one event; a sync must START after the delivery, within 20 s (a sync forced earlier has
 	// read the membership as it was before this event)
 	deliver := func(kind memberlist.NodeEventType, node string) bool {
 		before := syncs.Load()
 		sl.mlEventCh <- memberlist.NodeEvent{Event: kind, Node: &memberlist.Node{Name: node, Addr: net.IPv4(10, 0, 0, 9)}}
 		trace = append(trace, fmt.Sprintf("%s %s (syncs so far %d)", []string{"join", "leave", "update"}[kind], node, before))
-		for i := 0; i < 600; i++ {
+		for i := 0; i < 4000; i++ {
 			if syncs.Load() > before {
 				return true
 			}
@@ -72,7 +72,7 @@ func TestVerifSpeakerListEvents(t *testing.T) {
 	}
 	for i, s := range steps {
 		if !deliver(s.kind, s.node) {
-			fail(fmt.Sprintf("membership event %d (%s %s) is not followed by a sync within 3 s (syncs forced so far: %d): the speakers keep electing among the speakers that were alive BEFORE it — a dead speaker stays a candidate, a new one is ignored",
+			fail(fmt.Sprintf("membership event %d (%s %s) is not followed by a sync within 20 s (syncs forced so far: %d): the speakers keep electing among the speakers that were alive BEFORE it — a dead speaker stays a candidate, a new one is ignored",
 				i+1, []string{"join", "leave", "update"}[s.kind], s.node, syncs.Load()))
 			return
 		}
